@@ -38,6 +38,7 @@ impl BS {
         ensures
             f.inv1(), f.inv2(), f.cov(ko, qo),
             forall|k: int, x: int| #[trigger] f.cov(k, x) == (s.cov(k, x) || (0 <= k && is_anc(k, x, ko, qo))),
+            forall|j: int, y: int| #[trigger] f.a(j, y) ==> s.a(j, y) || j == ko,
     {
         assert forall|k: int| 0 <= k <= s.m implies #[trigger] f.n(k) == s.n(k) by {}
         assert(f.added(s, ko, qo)) by {
@@ -92,14 +93,19 @@ impl BS {
         }
     }
 
-    pub proof fn lemma_free_case_merge_post(s: BS, s1: BS, f: BS, ko: int, qo: int)
+    pub proof fn lemma_free_case_merge_post(s: BS, s1: BS, f: BS, ko: int, qo: int, r: int)
         requires
             s.added(s1, ko, sbuddy(qo)), 0 <= ko, 0 <= qo,
+            forall|j: int, y: int| #[trigger] f.a(j, y) ==> s1.a(j, y) || j == r,
             forall|k: int, x: int| 0 <= k <= ko + 1 ==> #[trigger] f.cov(k, x) == (s1.cov(k, x) || is_anc(k, x, ko + 1, qo / 2)),
         ensures
             forall|k: int, x: int| 0 <= k <= ko ==> #[trigger] f.cov(k, x) == (s.cov(k, x) || is_anc(k, x, ko, qo)),
             f.cov(ko, qo),
+            forall|j: int, y: int| #[trigger] f.a(j, y) ==> s.a(j, y) || j == r,
     {
+        assert forall|j: int, y: int| #[trigger] f.a(j, y) implies s.a(j, y) || j == r by {
+            if j != r { assert(s1.a(j, y)); if !(j == ko && y == sbuddy(qo)) { assert(s.a(j, y) == s1.a(j, y)); } }
+        }
         assert forall|k: int, x: int| 0 <= k <= ko implies #[trigger] f.cov(k, x) == (s.cov(k, x) || is_anc(k, x, ko, qo)) by {
             s.lemma_cov_added(s1, ko, sbuddy(qo), k, x);
             lemma_anc_split(k, x, ko, qo);
